@@ -8,6 +8,7 @@ import TantivyModel.Model.TermInfoStore
 import TantivyModel.Model.BlockCursor
 import TantivyModel.Model.Recorder
 import TantivyModel.Model.JsonPositions
+import TantivyModel.Model.PositionReader
 /-!
 Line protocol of the C07 model (see harness/src/props/c07.rs):
 
@@ -20,6 +21,7 @@ Line protocol of the C07 model (see harness/src/props/c07.rs):
 * `dec <opt> <doc_freq> <hex>` → `<docs>|<tfs>` | `err`
 * `seek <opt> <doc_freq> <hex> <program>` → doc after every op
 * `pos_enc <deltas>` → hex; `pos_read <hex> <offset> <len>` → values | `err`
+* `pos_reads <hex> <off:len,off:len,…>` → the outputs of that sequence of reads on ONE stateful PositionReader, separated by `|`
 * `blocksearch <values> <target>` → index
 * `invert_json <opt> <docs separated by ; and events by slash: <pathhex>~T~<tokens> | <pathhex>~N~<termhex>>` → `<terms>|<total_num_tokens>`
 * `pipeline_remap <opt> <new ids, comma separated, indexed by old id> <corpus>` → `<terms>|<total>` through the doc_id_map branch of Recorder::serialize
@@ -260,6 +262,18 @@ def handle : List String → String
       | some vs => showNatList vs
       | none => "err"
     | _, _, _ => "bad-op"
+  | ["pos_reads", h, reads] =>
+    match natsOfHex h, (reads.splitOn ",").mapM (fun r =>
+        match r.splitOn ":" with
+        | [o, l] => match o.toNat?, l.toNat? with
+          | some o, some l => some (o, l)
+          | _, _ => none
+        | _ => none) with
+    | some bs, some rs =>
+      match Positions.Reader.open cfg bs with
+      | some rd => "|".intercalate ((Positions.Reader.reads cfg rd rs).map showNatList)
+      | none => "err"
+    | _, _ => "bad-op"
   | ["blocksearch", vs, t] =>
     match natList vs, t.toNat? with
     | some vs, some t => if vs.length = cfg.B then toString (searchBlock cfg vs t) else "bad-op"
